@@ -947,8 +947,11 @@ class Engine:
         st.vars[target.value.id] = base.with_(kv=None)
       r = self.dom.on_store_subscript(base, idx, v, stmt, st)
       if r is not None and isinstance(target.value, ast.Name):
-        # weak update of the content abstraction of a local array
-        st.vars[target.value.id] = base.with_(d=r)
+        # weak update of the content abstraction of a local array (keeping
+        # the dict facet updated just above)
+        cur = st.vars.get(target.value.id)
+        cur = cur if isinstance(cur, V) else base
+        st.vars[target.value.id] = cur.with_(d=r)
       elif r is not None and isinstance(target.value, ast.Attribute):
         ov = self.eval(target.value.value, st, func)
         if ov.obj is not None:
